@@ -262,6 +262,15 @@ def effects(fn):
                 raise TranslationError("conditional statement that is not an SBEPP_ASSERT")
             out.append("(Assert %s)" % expr(st["inner"][0]))
             continue
+        if k == "UnaryOperator" and st.get("opcode") in ("++", "--"):
+            # x++ / ++x / x-- / --x as a statement: x = (T)(promote(x) +- 1), computed in the promoted type of x
+            lhs = st["inner"][0]
+            lt = _ity(lhs, "increment target")
+            pt = {"U8": "I32", "U16": "I32", "I8": "I32", "I16": "I32"}.get(lt, lt)
+            name = _target(lhs)
+            out.append('(Store "%s" (ECast %s (EBin %s %s (ECast %s (EVar "%s")) (ELit (1)))))'
+                       % (name, lt, "OAdd" if st["opcode"] == "++" else "OSub", pt, pt, name))
+            continue
         if k == "DeclStmt":
             for vd in st.get("inner", []):
                 init = [c for c in vd.get("inner", []) if c.get("kind")]
@@ -280,11 +289,11 @@ def effects(fn):
             op = st["opcode"][:-1]
             name = _target(lhs)
             if _is_ptr(lhs):
-                if op != "+":
+                if op not in ("+", "-"):
                     raise TranslationError("pointer %s=" % op)
-                if _ity(rhs, "pointer offset") not in ("I64", "U64"):
-                    raise TranslationError("pointer offset narrower than the pointer")
-                out.append('(PtrAdd "%s" %s)' % (name, expr(rhs)))
+                _char_ptr(lhs)
+                _ity(rhs, "pointer offset")      # the offset is the VALUE of the integer operand, whatever its type
+                out.append('(%s "%s" %s)' % ("PtrAdd" if op == "+" else "PtrSub", name, expr(rhs)))
                 continue
             lt = _ity(lhs, "compound assignment target")
             ct = st.get("computeResultType", {})
@@ -377,6 +386,12 @@ def translate(repo):
         b, d, sx = ta[2], ta[3], ta[4]
         if sx not in UNS or b not in UNS or SGN[sx] != d or (sx, b) in seen:
             continue
+        inc = [m for m in _methods(s, "operator++") if not _param_types(m)]
+        dec_ = [m for m in _methods(s, "operator--") if not _param_types(m)]
+        if len(inc) != 1 or len(dec_) != 1:
+            continue
+        defs.append(("src_it_inc_%s_%s" % (sx, b), effects(inc[0])))
+        defs.append(("src_it_dec_%s_%s" % (sx, b), effects(dec_[0])))
         plus = [m for m in _methods(s, "operator+=")]
         minus = [m for m in _methods(s, "operator-") if len(_param_types(m)) == 1 and _param_types(m)[0].rstrip().endswith("&")]
         if len(plus) != 1 or len(minus) != 1:
